@@ -201,6 +201,18 @@ def extra_direct(ck, S, ET, rng):
              S.func('foo_x_td_cb', S.VOID, [S.param('cb', S.td('FooCb2')), S.param('data', S.td('gpointer'))], line=20),
              S.func('foo_x_td_both', S.VOID, [S.param('n', S.td('gint')), S.param('cb', S.td('FooCb2')), S.param('cb_data', S.td('gpointer')),
                                               S.param('destroy', S.td('FooDestroy'))], line=21)]
+    # returned pointers to const containers (libnm: const GByteArray *nm_setting_wireless_get_ssid (void))
+    CONT = ['GByteArray', 'GList', 'GSList', 'GPtrArray', 'GArray', 'GHashTable']
+    for j, cn_ in enumerate(CONT):
+        syms.append(S.func('foo_x_const_%s' % cn_.lower(), S.ptr(S.FT(S.CTYPE_TYPEDEF, cn_, type_qualifier=S.TYPE_QUALIFIER_CONST)), [], line=30 + j))
+    # const and volatile together (g_atomic_int_get (const volatile gint *atomic)), on a pointer target, by value, and on a field
+    syms += [S.func('foo_x_atomic_get', S.td('gint'), [S.param('atomic', S.ptr(S.FT(S.CTYPE_TYPEDEF, 'gint', type_qualifier=CV))),
+                                                      S.param('flag', S.FT(S.CTYPE_TYPEDEF, 'guint', type_qualifier=CV))], line=40),
+             S.FS(S.CSYMBOL_TYPE_TYPEDEF, 'FooCounter', base_type=S.FT(S.CTYPE_STRUCT, '_FooCounter'), line=41),
+             S.FS(S.CSYMBOL_TYPE_STRUCT, '_FooCounter', base_type=S.FT(S.CTYPE_STRUCT, '_FooCounter', child_list=[
+                 S.FS(S.CSYMBOL_TYPE_MEMBER, 'hw_ticks', base_type=S.FT(S.CTYPE_TYPEDEF, 'guint32', type_qualifier=CV), line=43),
+                 S.FS(S.CSYMBOL_TYPE_MEMBER, 'lock', base_type=S.FT(S.CTYPE_TYPEDEF, 'gint', type_qualifier=S.TYPE_QUALIFIER_VOLATILE), line=44),
+                 S.FS(S.CSYMBOL_TYPE_MEMBER, 'kind', base_type=S.FT(S.CTYPE_TYPEDEF, 'FooEnum', type_qualifier=CV), line=45)]), line=42)]
     rng.shuffle(syms)
     case = dict(declarations='char **foo_x_strv(gint); GStrv foo_x_gstrv(void); #define FOO_X_NAME "a name"; #define FOO_X_COUNT ((gint) 7); '
                              'const volatile char *foo_x_cv(void); typedef GDestroyNotify FooDestroy; typedef FooCbA FooCb2; typedef FooCb FooCbA; '
@@ -230,10 +242,37 @@ def extra_direct(ck, S, ET, rng):
             ck.failing_input('a returned %s string does not default to transfer %s' % ('const' if want == 'none' else 'non-const', want),
                              dict(case, function=name), detail=None if v is None else v.attrib)
 
+    for cn_ in CONT:
+        v = rv('foo_x_const_%s' % cn_.lower())
+        if v is None or v.get('transfer-ownership') != 'none':
+            ck.failing_input('a returned pointer to a const container is not "transfer none"',
+                             dict(declaration='const %s *foo_x_const_%s (void);' % (cn_, cn_.lower())), detail=None if v is None else v.attrib)
+
     def params(name):
         f = fns.get(name)
         ps = None if f is None else f.find(S.CORE + 'parameters')
         return [] if ps is None else ps.findall(S.CORE + 'parameter')
+    # the original C spelling is kept as c:type: both qualifiers, the name, the stars
+    spelled = []
+    ps_ = params('foo_x_atomic_get')
+    if len(ps_) == 2:
+        spelled += [('parameter atomic of gint foo_x_atomic_get (const volatile gint *atomic, const volatile guint flag)', ps_[0], ['const', 'volatile', 'gint*']),
+                    ('parameter flag of gint foo_x_atomic_get (const volatile gint *atomic, const volatile guint flag)', ps_[1], ['const', 'volatile', 'guint'])]
+    else:
+        ck.failing_input('a function is missing from the GIR', dict(case, function='foo_x_atomic_get'))
+    rec_ = next((x for x in ns.findall(S.CORE + 'record') if x.get(S.CNS + 'type') == 'FooCounter'), None)
+    for fname, words in (('hw_ticks', ['const', 'volatile', 'guint32']), ('lock', ['volatile', 'gint']), ('kind', ['const', 'volatile', 'FooEnum'])):
+        fe = None if rec_ is None else next((x for x in rec_.findall(S.CORE + 'field') if x.get('name') == fname), None)
+        if fe is None:
+            ck.failing_input('a field is missing from the GIR', dict(structure='FooCounter', field=fname))
+        else:
+            spelled.append(('field %s of struct _FooCounter { const volatile guint32 hw_ticks; volatile gint lock; const volatile FooEnum kind; }' % fname, fe, words))
+    for what, el_, words in spelled:
+        t = el_.find(S.CORE + 'type')
+        ct = '' if t is None else (t.get(S.CNS + 'type') or '')
+        if sorted(ct.split()) != sorted(words):
+            ck.failing_input('the c:type does not keep the C spelling of a const volatile type', dict(where=what),
+                             detail=dict(c_type=ct, expected_words=words))
     for name, cbi, closure, destroy in (('foo_x_td_destroy', 0, '1', '2'), ('foo_x_td_cb', 0, '1', None), ('foo_x_td_both', 1, '2', '3')):
         ps = params(name)
         if len(ps) <= cbi:
